@@ -4,6 +4,7 @@ import ScryerModel.Drv.TermIO
 /-
 drv_C13 — line protocol (TAB separated), terms in the harness' canonical syntax:
   cmp   <id> <T1> <T2>          -> lt | eq | gt            (Order.termCompare)
+  norm  <id> <T>                -> the term printed back (render check of the Python side)
   ops   <id> <T1> <T2>          -> six letters t/f for  ==  \==  @<  @=<  @>  @>=
   sort  <id> <T1> … <Tn>        -> canonical list: sorted by termCompare, adjacent equals removed
   ksort <id> <K1> … <Kn>        -> the stable sort permutation of the keys, e.g. `2 0 1`
@@ -43,6 +44,10 @@ def main : IO Unit := runDriver fun
       match parseTermStr a, parseTermStr b with
       | some x, some y => ordStr (termCompare ageOf x y)
       | _, _ => "parse-error"
+  | "norm" :: _ :: a :: _ =>
+      match parseTermStr a with
+      | some x => showTerm x
+      | none => "parse-error"
   | "ops" :: _ :: a :: b :: _ =>
       match parseTermStr a, parseTermStr b with
       | some x, some y =>
